@@ -1327,7 +1327,24 @@ def _map1(I, f):
         if x is None:
             raise SymRaise("TypeError", "None passed to a math function")
         return f(to_expr(x), *[to_expr(r) for r in rest])
-    return g
+
+    def with_out(x, *rest, out=None, **kw):
+        # numpy's out=: the result is written into the array given, which is also what is returned
+        if kw:
+            raise AnalysisError(f"keyword {sorted(kw)[0]} of an element-wise numpy function is not modelled")
+        rest = list(rest)
+        if out is None and rest and isinstance(rest[-1], Vec) and False:
+            out = rest.pop()
+        r = g(x, *rest)
+        if out is None:
+            return r
+        if isinstance(out, tuple) and len(out) == 1:
+            out = out[0]
+        if not isinstance(out, Vec) or not isinstance(r, Vec) or len(out.items) != len(r.items):
+            raise AnalysisError("out= of an element-wise numpy function on values that are not arrays of one length")
+        out.items[:] = r.items
+        return out
+    return with_out
 
 
 def make_builtins(I):
